@@ -32,12 +32,12 @@ CLAIMED = {
   "The predicate must branch only on y%c ==/!= 0 tests (otherwise undecided). Nothing is executed; residues are abstract elements.",
   "constant evaluation by go/types + congruence-domain abstract interpretation of the CFG"),
  "C17": ("other",
-  "Structural clauses of 'always answers' and of the reporting rules, decided on every path of the runner: the deferred result encoding is registered first in the entry block and encodeResults calls Encode on the runner's writer exactly once on every path (one document per exit); every interface value dereferenced between decoding and Run and every argument of Run is non-nil on all paths (nil-ness lattice with per-return-site summaries; found and fixed the no-inputs request); the catalogue factory is nil-checked before the call; a float64 enters the result tree only through JsonSafeValue under !IsNaN && !IsInf(.,0) and every element/map entry comes from the JSON-safe functions; defaults are returned only with a message, defaulted parameters and missing inputs append warnings and all warnings are logged before Run; request input k is copied into row k of the model's input array (position in the model description, not in the request); the JSON conversion never writes through the array it converts (Shape() aliases the array's own dimension vector); the runner lacks the dimension handshake of its sibling entry points (known finding). Equivalence with a direct run and panic-freedom of kernels are NOT decided.",
+  "Structural clauses of 'always answers' and of the reporting rules, decided on every path of the runner: the deferred result encoding is registered first in the entry block and encodeResults calls Encode on the runner's writer exactly once on every path (one document per exit); every interface value dereferenced between decoding and Run and every argument of Run is non-nil on all paths (nil-ness lattice with per-return-site summaries; found and fixed the no-inputs request); the catalogue factory is nil-checked before the call; a float64 enters the result tree only through JsonSafeValue under !IsNaN && !IsInf(.,0) and every element/map entry comes from the JSON-safe functions; defaults are returned only with a message, defaulted parameters and missing inputs append warnings and all warnings are logged before Run; request input k is copied into row k of the model's input array (position in the model description, not in the request); the JSON conversion never writes through the array it converts (Shape() aliases the array's own dimension vector); a supplied series reaches the copy into the input array only through the allocation it sizes or through a length comparison (found and fixed: unequal-length inputs crashed or were padded silently); the request is decoded from the caller's reader itself; the runner lacks the dimension handshake of its sibling entry points (known finding). Equivalence with a direct run and panic-freedom of kernels are NOT decided.",
   "DESIGN.md section 2, C17",
   "Results of TimeSteppingModel interface methods are assumed non-nil by contract. Kernels run in goroutines the runner cannot recover; their panic-freedom is a value property.",
   "must-pass-through / dominance checks + interprocedural nil-ness lattice + guard-edge check of the non-finite encoding on go/ssa"),
  "C14": ("other",
-  "Structural necessary conditions of purity and causality, decided over every module function reachable (VTA call graph) from any wrapper method and over every kernel: no write of a package-level variable and no read of one that is written outside package initialisation; model struct fields are assigned only by ApplyParameters/InitialiseDimensions; no call of time.Now/rand/os.Getenv/file reads and no map iteration; in every kernel each read of an input series and each write of an output series inside the time loop uses the loop's own induction variable as time index (through the reaching store of the one-element index vector), inputs are read outside the loop only at index 0, no whole-series reduction of an input; Run never writes storage reachable from its inputs/parameters arguments (a later run on the same arrays would see different inputs). Together these are sufficient for 'outputs up to t do not depend on inputs after t' given Get/Set semantics (C01). Bit-identity as such is not executed or compared.",
+  "Structural necessary conditions of purity and causality, decided over every module function reachable (VTA call graph) from any wrapper method and over every kernel: no write of a package-level variable and no read of one that is written outside package initialisation; model struct fields are assigned only by ApplyParameters/InitialiseDimensions; no call of time.Now/rand/os.Getenv/file reads and no map iteration; in every kernel each read of an input series and each write of an output series inside the time loop uses the loop's own induction variable as time index (through the reaching store of the one-element index vector), inputs are read outside the loop only at index 0, no whole-series reduction of an input; Run never writes storage reachable from its inputs/parameters arguments (a later run on the same arrays would see different inputs); inside a kernel's time loop nothing that influences outputs or states derives from the length of the series (the truncation clause). Together these are sufficient for 'outputs up to t do not depend on inputs after t' given Get/Set semantics (C01). Bit-identity as such is not executed or compared.",
   "DESIGN.md section 2, C14",
   "One symbol-wide exception (routing.lag reads i-lagSteps). Stdlib internals (fmt, math) are not inspected. Rejected rule: 'every output written on every path' (early returns leave zero-initialised outputs, which the property's quantifier makes correct).",
   "call-graph reachability + global/field store scan + reaching-store evaluation of time indices on go/ssa"),
@@ -47,7 +47,7 @@ CLAIMED = {
   "Sub-step loop recognised as `for T > 0 { ...; T -= dt }`; versions of a source variable related through SSA phi webs; R13.4 treats non-polynomial subexpressions as opaque symbols.",
   "control-equivalence (dominance/post-dominance) of accumulations + symbolic polynomial comparison of update terms on go/ssa"),
  "C12": ("other",
-  "Per-timestep mass budgets decided by polynomial normal form, nothing executed: for LumpedConstituentRouting, ConstituentDecay, InstreamFineSediment, InstreamCoarseSediment, InstreamParticulateNutrient and StorageParticulateTrapping, on every feasible CFG path through one iteration of the kernel's time loop, (carried stored masses after the step) + (mass leaving or reported: downstream/flood-plain/decayed/trapped loads, rates weighted by the model's own timestep parameter) - (stored masses before) - (mass entering) expands to the zero polynomial after clearing denominators; phis are resolved by the path, helper results are opaque symbols and, if a path does not close that way, scalar helpers are inlined along each of their paths; only paths through the documented flush edge (step water volume compared with a constant <= MINIMUM_VOLUME) are exempt. Delegation between kernels (incl. the decay-disabled StorageDissolvedDecay the property names) hands over every mass input, the timestep, mass outputs and the stored mass position for position, and is nil-safe (found and fixed a nil-pointer panic; found a genuine leak of reachLocalMass in the fine-sediment model's lumped branch, recorded as a known finding). Amounts a helper removes from a working mass are computed from that same mass. NOT decided: non-negativity as such, clamps that bind (decided for the non-binding case), the remobilisation bound, StorageTrapAll (no timestep parameter: no budget can be stated), initial-state conventions before the loop.",
+  "Per-timestep mass budgets decided by polynomial normal form, nothing executed: for LumpedConstituentRouting, ConstituentDecay, InstreamFineSediment, InstreamCoarseSediment, InstreamParticulateNutrient and StorageParticulateTrapping, on every feasible CFG path through one iteration of the kernel's time loop, (carried stored masses after the step) + (mass leaving or reported: downstream/flood-plain/decayed/trapped loads, rates weighted by the model's own timestep parameter) - (stored masses before) - (mass entering) expands to the zero polynomial after clearing denominators; phis are resolved by the path, helper results are opaque symbols and, if a path does not close that way, scalar helpers are inlined along each of their paths; only paths through the documented flush edge (step water volume compared with a constant <= MINIMUM_VOLUME) are exempt. Delegation between kernels (incl. the decay-disabled StorageDissolvedDecay the property names) hands over every mass input, the timestep, mass outputs and the stored mass position for position, and is nil-safe (found and fixed a nil-pointer panic; found a genuine leak of reachLocalMass in the fine-sediment model's lumped branch, recorded as a known finding). Amounts a helper removes from a working mass are computed from that same mass; where a mass is apportioned as M*X/D with D a sum of volumes, X is one of D's summands (so a share can never exceed the whole and the final clamp cannot hide created mass). NOT decided: non-negativity as such, clamps that bind (decided for the non-binding case), the remobilisation bound, StorageTrapAll (no timestep parameter: no budget can be stated), initial-state conventions before the loop.",
   "DESIGN.md section 2, C12",
   "The table of mass terms per model (by OW-SPEC names) is part of the checker and restates the property. Clamps against constants are read as their non-constant argument. The budget is per step; closure over a period follows by induction on steps given C06 (state threading).",
   "path-sensitive symbolic polynomial normal forms with denominator clearing and helper inlining over go/ssa + interprocedural nil-dereference summaries"),
@@ -67,12 +67,12 @@ CLAIMED = {
   "The generators are the oracle and are executed (generator code only; no model, array or I/O code runs). OW-SPEC parsing in the checker mirrors ow-specgen's preprocessing and regular expression.",
   "regenerate-and-diff translation validation + AST/SSA comparison of wrappers with parsed specs"),
  "C01": ("other",
-  "Decides the shape of the index algebra for every element type and both back-ends: a unit-typed abstract interpretation (S storage cells, R allocated index, V view index; Start:S, Offset:S/R, Step:R/V, OffsetStep:S/V, loc:V) of every store to the stride fields, every index into the backing store and the result of Index, with helper functions analysed from their bodies; Slice shares the receiver's storage; every element access goes through Index(loc) of the same receiver. A stride-composition formula that is wrong for nested stepped slices has inconsistent units and is reported (this found the SliceInto defect, now fixed). Bounds and arithmetic beyond dimensional consistency are NOT decided.",
+  "Decides the shape of the index algebra for every element type and both back-ends: a unit-typed abstract interpretation (S storage cells, R allocated index, V view index; Start:S, Offset:S/R, Step:R/V, OffsetStep:S/V, loc:V) of every store to the stride fields, every index into the backing store and the result of Index, with helper functions analysed from their bodies; Slice shares the receiver's storage; every element access goes through Index(loc) of the same receiver; a view object holds no second element buffer; an operation on a view cut with a step vector is never given a step from that same vector (a step is applied once). A stride-composition formula that is wrong for nested stepped slices has inconsistent units and is reported (this found the SliceInto defect, now fixed). Bounds and arithmetic beyond dimensional consistency are NOT decided.",
   "DESIGN.md section 2, C01",
   "Dims/OriginalDims are untyped; literals and lengths are polymorphic; a wrong constant factor would pass. In-bounds-ness of loc/dims/step is assumed.",
   "dimensional (unit) abstract interpretation over go/ssa + storage-sharing and addressing-path checks"),
  "C02": ("other",
-  "Structural clauses of the bulk operations, per element type: every range access Impl[a:b] and every write through x.Unroll() that relies on aliasing is dominated by Contiguous()==true on that object (or x is a fresh root array); the contiguity predicate branches on Step, Dims and OriginalDims/Offset; Go-backed Unroll returns a sub-slice of the storage when contiguous — and a gathered copy only on a path where Contiguous() is known false — and Reshape builds on it; ReshapeFast fails exactly under !Contiguous(), Reshape succeeds exactly on the equal edge of the element-count comparison; fresh strides are laid over own storage only when contiguous; Argmax returns an index of its parameter (index-space typing; found and fixed an off-by-one); a row-major position within a view is decoded with Offsets(dims) of the very dims it is reduced modulo (not with the array's stored strides). Equality of fast and general paths as values is NOT decided.",
+  "Structural clauses of the bulk operations, per element type: every range access Impl[a:b] and every write through x.Unroll() that relies on aliasing is dominated by Contiguous()==true on that object (or x is a fresh root array); the contiguity predicate branches on Step, Dims and OriginalDims/Offset; Go-backed Unroll returns a sub-slice of the storage when contiguous — and a gathered copy only on a path where Contiguous() is known false — and Reshape builds on it; ReshapeFast fails exactly under !Contiguous(), Reshape succeeds exactly on the equal edge of the element-count comparison; fresh strides are laid over own storage only when contiguous; Argmax returns an index of its parameter (index-space typing; found and fixed an off-by-one); a row-major position within a view is decoded with Offsets(dims) of the very dims it is reduced modulo (not with the array's stored strides); the whole-array helpers write their destination on every path (no value-dependent shortcut return). Equality of fast and general paths as values is NOT decided.",
   "DESIGN.md section 2, C02",
   "Exactness of Contiguous' arithmetic and of Increment/Offsets/IDivMod/Product is not decided. C-backed types are judged under C03.",
   "guard-edge dominance, alias tracking of Unroll results and index-space typing on go/ssa"),
@@ -87,7 +87,7 @@ CLAIMED = {
   "ND view methods (Slice/Reshape/MustReshape/ReshapeFast) are taken to share storage (checked separately by C01/C02). Row count of pack-function results proven only for constant extents. ApplyParameters row-block arithmetic not decided.",
   "effect summaries + reaching-store evaluation of index vectors on go/ssa, per generated wrapper"),
  "C05": ("other",
-  "Goroutine confinement and counted join for all 43 go statements in the module: captured variables are never assigned in the goroutine nor by the spawner once it may run; shared index vectors are never written (also not through Apply's loc); shared arrays are written only through per-cell views; every goroutine path signals exactly once and the spawner's returns are dominated by a receive loop with the same count; no function reachable from a cell goroutine writes package-level storage; nothing reachable from a cell goroutine writes through Run's inputs or a parameter view (shared by the cells whenever they repeat cyclically). No schedule is explored; the claim is absence of shared mutable locations, from which schedule independence follows.",
+  "Goroutine confinement and counted join for all 43 go statements in the module: captured variables are never assigned in the goroutine nor by the spawner once it may run; shared index vectors are never written (also not through Apply's loc); shared arrays are written only through per-cell views; every goroutine path signals exactly once and the spawner's returns are dominated by a receive loop with the same count; no function reachable from a cell goroutine writes package-level storage; nothing reachable from a cell goroutine writes through Run's inputs or a parameter view (shared by the cells whenever they repeat cyclically); no read method of any array type writes through its receiver (elements, stride/shape metadata or a scratch field). No schedule is explored; the claim is absence of shared mutable locations, from which schedule independence follows.",
   "DESIGN.md section 2, C05",
   "Does not decide the writer-vs-main access to modelReference.Generations (token argument, see C07). Pointer arguments of distinct goroutines assumed distinct. No happens-before reasoning beyond the done-channel join.",
   "escape/confinement analysis of go closures + must-pass-through send/receive join check on go/ssa CFGs"),
